@@ -147,6 +147,9 @@ def step (d : DS) (line : String) : DS × String :=
       | "play" =>
         let (_, r) := play d.env d.s (ledgerH d) (d.env.block (arg 0))
         (d, if r == .ok then "fault" else "fail:" ++ r.toString)
+      | "playminer" =>
+        let (_, r) := playForMiner d.env d.s (ledgerH d) (d.env.block (arg 0))
+        (d, if r == .ok then "fault" else "fail:" ++ r.toString)
       | "walk" => (d, "fault")
       | "confirm" =>
         let b := d.env.block (arg 0)
